@@ -33,7 +33,8 @@ ASSUMPTIONS = ['reference interpreter vf/model.py is trusted for (b)']
 
 SOURCES = harness.SOURCE_ORDER
 FORMS = ['var', 'entity', 'expr', 'if', 'in', 'sub', 'sub-default',
-         'let-name', 'with-only', 'sub-default-equal-map',
+         'let-name', 'with-only', 'if-expr', 'elif-expr', 'unless-expr',
+         'sub-default-equal-map',
          'sub-default-equal-sub', 'sub-default-self']
 KINDS = ['plain', 'rec', 'tmpl', 'rec-keyerror', 'rec-nameerror',
          'tmpl-undef']
@@ -54,6 +55,13 @@ def value(kind, tag, form):
             return dict(t='rec', id=tag, ret=dict(t='list', items=[s]))
         return None
     if kind in RAISING and form in ('in', 'expr'):
+        return None
+    if form in ('if-expr', 'elif-expr', 'unless-expr'):
+        # the object itself is true, what calling it returns is false
+        if kind == 'plain':
+            return s
+        if kind == 'rec':
+            return dict(t='rec', id=tag, ret=0)
         return None
     if kind == 'plain':
         return s
@@ -83,6 +91,11 @@ def expected(kind, tag, form):
         if kind == 'rec':
             return '[<Rec %s>]' % tag, []
         return '[T:' + tag + ']', []      # str(template) == its source
+    if form in ('if-expr', 'elif-expr'):
+        # expressions receive the object uncalled: it is true, never called
+        return '[Y]', []
+    if form == 'unless-expr':
+        return '[]', []
     if form == 'if':
         return '[Y' + shown + ']', called
     if form == 'in':
@@ -105,6 +118,10 @@ def source_text(form):
         'let-name': '[<dtml-let q=nn><dtml-var q></dtml-let>]',
         'with-only': '[<dtml-with wo only><dtml-var other missing="">'
                      '</dtml-with><dtml-var nn>]',
+        'if-expr': '[<dtml-if "nn">Y<dtml-else>N</dtml-if>]',
+        'elif-expr': '[<dtml-if "0">Z<dtml-elif expr="nn">Y<dtml-else>N'
+                     '</dtml-if>]',
+        'unless-expr': '[<dtml-unless "nn">U</dtml-unless>]',
         # a mapping equal to the sub-template's defaults is already on the
         # namespace, a let rebinds the name, then the sub-template is called
         'sub-default-equal-map': '[<dtml-with eqmap mapping><dtml-let '
@@ -116,7 +133,7 @@ def source_text(form):
 
 
 CLIENT_FORMS = ['obj', 'tuple1', 'tuple2-first', 'tuple2-last',
-                'tuple2-both']
+                'tuple2-both', 'obj-empty', 'obj-false', 'tuple1-empty']
 
 
 def enum_case(subset, cform, form, kind):
@@ -126,6 +143,12 @@ def enum_case(subset, cform, form, kind):
             continue
         sources[sname] = {'nn': value(kind, sname, form)}
     winner = [s for s in SOURCES if s in subset][0]
+    falsy = None
+    if cform.endswith('-empty') or cform.endswith('-false'):
+        falsy = 'len' if cform.endswith('-empty') else 'bool'
+        cform = cform.split('-')[0]
+    if falsy:
+        sources['client_falsy'] = falsy
     if 'client' in subset:
         v1 = value(kind, 'client', form)
         if cform == 'obj':
